@@ -190,30 +190,10 @@ def run_one(spec):
     return res
 
 
-def main():
-    if '--one' in sys.argv:
-        spec = json.load(sys.stdin)
-        limit = spec.get('watchdog', 40)
-
-        def watchdog():
-            time.sleep(limit)
-            sys.stdout.write('\n' + json.dumps(dict(kind=spec['kind'], spec=spec, hang=True, wall_s=limit)) + '\n')
-            sys.stdout.flush()
-            os.killpg(os.getpgid(0), signal.SIGKILL)
-        threading.Thread(target=watchdog, daemon=True).start()
-        import logging
-        logging.disable(logging.CRITICAL)
-        try:
-            out = run_one(spec)
-        except BaseException as exc:    # noqa
-            out = dict(kind=spec['kind'], spec=spec, error='%s: %s' % (type(exc).__name__, exc))
-        sys.stdout.write('\n' + json.dumps(out) + '\n')
-        sys.stdout.flush()
-        os._exit(0)
-    specs = json.load(sys.stdin)
+def run_batch(specs):
     procs = []
     for sp in specs:
-        out = open(os.path.join('/tmp', 'rp_%d_%d.out' % (os.getpid(), len(procs))), 'w+')
+        out = open(os.path.join('/tmp', 'rp_%d_%d_%d.out' % (os.getpid(), id(sp) % 100000, len(procs))), 'w+')
         p = subprocess.Popen([sys.executable, '-u', os.path.abspath(__file__), '--one'],
                              stdin=subprocess.PIPE, stdout=out, stderr=subprocess.DEVNULL,
                              text=True, start_new_session=True, cwd=HERE)
@@ -223,7 +203,7 @@ def main():
     results = []
     for p, out, sp in procs:
         try:
-            p.wait(timeout=sp.get('watchdog', 40) + 15)
+            p.wait(timeout=sp.get('watchdog', 60) + 15)
         except subprocess.TimeoutExpired:
             try:
                 os.killpg(p.pid, signal.SIGKILL)
@@ -241,6 +221,34 @@ def main():
         name = out.name
         out.close()
         os.remove(name)
+    return results
+
+
+def main():
+    if '--one' in sys.argv:
+        spec = json.load(sys.stdin)
+        limit = spec.get('watchdog', 60)
+
+        def watchdog():
+            time.sleep(limit)
+            sys.stdout.write('\n' + json.dumps(dict(kind=spec['kind'], spec=spec, hang=True, wall_s=limit)) + '\n')
+            sys.stdout.flush()
+            os.killpg(os.getpgid(0), signal.SIGKILL)
+        threading.Thread(target=watchdog, daemon=True).start()
+        import logging
+        logging.disable(logging.CRITICAL)
+        try:
+            out = run_one(spec)
+        except BaseException as exc:    # noqa
+            out = dict(kind=spec['kind'], spec=spec, error='%s: %s' % (type(exc).__name__, exc))
+        sys.stdout.write('\n' + json.dumps(out) + '\n')
+        sys.stdout.flush()
+        os._exit(0)
+    specs = json.load(sys.stdin)
+    results = []
+    width = int(os.environ.get('REALPOOL_PARALLEL', '4'))
+    for b in range(0, len(specs), width):
+        results.extend(run_batch(specs[b:b + width]))
     print(json.dumps(results))
 
 
